@@ -153,6 +153,13 @@ func newOpState(op OpSpec, t *task) (*opState, context.Context, error) {
 		st.inner = c
 		st.trigger = func() { cancel(fmt.Errorf("%w: sibling query failed", exec.ErrVerbose)) }
 		st.cleanup = func() { cancel(nil) }
+	case "farcancel":
+		// A deadline far in the future, cancelled by hand long before it.
+		dl, dcancel := context.WithDeadline(context.Background(), time.Now().Add(200*365*24*time.Hour))
+		c, cancel := context.WithCancel(dl)
+		st.inner, st.cancel = c, cancel
+		st.trigger = cancel
+		st.cleanup = func() { cancel(); dcancel() }
 	case "parent":
 		parent, pcancel := context.WithCancel(context.Background())
 		c, cancel := context.WithCancel(parent)
